@@ -1872,6 +1872,188 @@ Section MixtureSpecFull.
   Qed.
 End MixtureSpecFull.
 
+(* the definition of [outcome_output], spelled out *)
+Lemma outcome_output_unfold {K} (o : ops K) (D : state -> list (state * K)) n_modes raw F :
+  outcome_output (o:=o) D n_modes raw F = groups_expect (o:=o) D (decompose n_modes (an_make raw)) F /\
+  (forall g gs, groups_expect (o:=o) D (g :: gs) F = wsum o (D g) (fun s => gexp (o:=o) D gs s F)) /\
+  (forall g gs acc, gexp (o:=o) D (g :: gs) acc F = wsum o (D g) (fun s => gexp (o:=o) D gs (zip_add acc s) F)) /\
+  (forall acc, gexp (o:=o) D [] acc F = F acc).
+Proof. repeat split. Qed.
+
+(* ---- zero indistinguishability: classical particles ---- *)
+Lemma dedup_from_nodup seen l :
+  NoDup l -> (forall x, In x l -> ~ In x seen) -> dedup_from seen l = l.
+Proof.
+  revert seen; induction l as [|x l IH]; intros seen Hnd Hd; simpl; [reflexivity|].
+  inversion Hnd as [|? ? Hx Hnd']; subst.
+  destruct (existsb (Z.eqb x) seen) eqn:E.
+  - apply existsb_eqb_In in E. exfalso. apply (Hd x); [left; reflexivity|exact E].
+  - f_equal. apply IH; [exact Hnd'|]. intros y Hy [<-|H]; [contradiction|]. apply (Hd y); [right; exact Hy|exact H].
+Qed.
+
+Lemma count_lab_app l m1 m2 : count_lab l (m1 ++ m2) = (count_lab l m1 + count_lab l m2)%Z.
+Proof.
+  unfold count_lab. induction m1 as [|x m1 IH]; cbn [app fold_right]; [reflexivity|].
+  rewrite IH. destruct (Z.eqb x l); lia.
+Qed.
+
+Lemma group_state_photons a l : st_n_photons (group_state a l) = count_lab l (concat a).
+Proof.
+  unfold st_n_photons, group_state. induction a as [|m a IH]; simpl; [reflexivity|].
+  rewrite IH, count_lab_app. reflexivity.
+Qed.
+
+Lemma count_lab_notin l m : ~ In l m -> count_lab l m = 0%Z.
+Proof.
+  unfold count_lab. induction m as [|x m IH]; cbn [fold_right]; intros H; [reflexivity|].
+  destruct (Z.eqb_spec x l) as [->|Hne]; [exfalso; apply H; left; reflexivity|].
+  apply IH. intros H'. apply H. right. exact H'.
+Qed.
+
+Lemma count_lab_nodup l m : NoDup m -> In l m -> count_lab l m = 1%Z.
+Proof.
+  induction m as [|x m IH]; intros Hnd Hin; [contradiction|].
+  inversion Hnd as [|? ? Hx Hnd']; subst.
+  change (count_lab l (x :: m)) with (if Z.eqb x l then (1 + count_lab l m)%Z else count_lab l m).
+  destruct (Z.eqb_spec x l) as [->|Hne].
+  - rewrite count_lab_notin by exact Hx. reflexivity.
+  - destruct Hin as [H|H]; [congruence|]. apply IH; assumption.
+Qed.
+
+(* an input whose labels are pairwise distinct decomposes into one single-photon group per photon:
+   its output is the convolution of single-photon distributions (classical, distinguishable particles) *)
+Lemma decompose_distinct n_modes (a : astate) :
+  NoDup (concat a) -> concat a <> [] ->
+  decompose n_modes a = map (group_state a) (concat a) /\
+  Forall (fun g => st_n_photons g = 1%Z) (decompose n_modes a) /\
+  length (decompose n_modes a) = an_n_photons a.
+Proof.
+  intros Hnd Hne.
+  assert (E : decompose n_modes a = map (group_state a) (concat a)).
+  { unfold decompose. destruct (concat a) as [|l0 L] eqn:Ea; [congruence|].
+    unfold dedup. rewrite dedup_from_nodup; [reflexivity|exact Hnd|intros x _ []]. }
+  rewrite E. repeat split.
+  - apply Forall_forall. intros g Hg. apply in_map_iff in Hg as (l & <- & Hl).
+    rewrite group_state_photons. apply count_lab_nodup; assumption.
+  - rewrite map_length. unfold an_n_photons. clear. induction a as [|m a IH]; simpl; [reflexivity|].
+    rewrite app_length, IH. reflexivity.
+Qed.
+
+Section Classical.
+  Context {K : Type} {o : ops K} {SR : StarRing o}.
+  Let R := sr_ring (o:=o).
+  Add Ring Kr11 : R.
+  Local Notation "0" := (k0 o).
+  Local Notation "1" := (k1 o).
+  Local Notation "a * b" := (kmul o a b).
+  Variables nu p2 : K.
+
+  (* with indistinguishability 0 the two table entries that carry the shared label 0 vanish *)
+  Lemma zero_indist_table : Source.c1 o nu 0 p2 = 0 /\ c12d o nu 0 p2 = 0.
+  Proof. unfold Source.c1, c12d. split; ring. Qed.
+
+  (* every outcome vector: labels other than 0 are fresh (pairwise distinct, from this photon's
+     own counter range), and an outcome that contains label 0 has weight 0 when p_i = 0 *)
+  Definition nz (ls : list Z) : list Z := filter (fun l => negb (Z.eqb l 0)) ls.
+
+  Lemma nz_app a b : nz (a ++ b) = nz a ++ nz b.
+  Proof. apply filter_app. Qed.
+
+  Lemma photon_table_labels p_i cnt e :
+    (0 < cnt)%Z -> In e (photon_table o nu p_i p2 cnt) ->
+    NoDup (nz (fst e)) /\ (forall l, In l (nz (fst e)) -> (cnt <= l < cnt + 2)%Z) /\
+    (In 0%Z (fst e) -> p_i = 0 -> snd e = 0).
+  Proof.
+    intros Hc Hin. unfold photon_table in Hin. cbn [In] in Hin.
+    assert (E1 : (cnt =? 0)%Z = false) by (apply Z.eqb_neq; lia).
+    assert (E2 : (cnt + 1 =? 0)%Z = false) by (apply Z.eqb_neq; lia).
+    destruct Hin as [<-|[<-|[<-|[<-|[<-|[<-|[]]]]]]]; cbn [fst snd nz filter Z.eqb negb];
+      rewrite ?E1, ?E2; cbn [negb]; (split; [|split]);
+      try (repeat constructor; cbn [In]; intuition lia);
+      try (intros l Hl; cbn [In] in Hl; intuition lia);
+      intros H0 Hp; cbn [In] in H0; try (exfalso; intuition lia); subst p_i; apply zero_indist_table.
+  Qed.
+
+  Lemma mode_outcomes_labels p_i n : forall cnt e,
+    (0 < cnt)%Z -> In e (mode_outcomes o nu p_i p2 n cnt) ->
+    NoDup (nz (fst e)) /\ (forall l, In l (nz (fst e)) -> (cnt <= l < cnt + 2 * Z.of_nat n)%Z) /\
+    (In 0%Z (fst e) -> p_i = 0 -> snd e = 0).
+  Proof.
+    induction n as [|n IH]; intros cnt e Hc Hin.
+    - cbn [mode_outcomes In] in Hin. destruct Hin as [<-|[]]. cbn [fst snd nz filter concat]. split; [constructor|split; [intros l []|intros []]].
+    - cbn [mode_outcomes] in Hin. unfold lprod in Hin. apply in_flat_map in Hin as (e1 & H1 & Hin).
+      apply in_map_iff in Hin as (e2 & <- & H2). cbn [fst snd].
+      destruct (photon_table_labels p_i cnt e1 Hc H1) as (A1 & A2 & A3).
+      destruct (IH (cnt + 2)%Z e2 ltac:(lia) H2) as (B1 & B2 & B3).
+      rewrite nz_app. split; [|split].
+      + apply NoDup_app_intro; [exact A1|exact B1|]. intros x Hx1 Hx2. specialize (A2 x Hx1). specialize (B2 x Hx2). lia.
+      + intros lab Hl. apply in_app_or in Hl as [Hl|Hl]; [specialize (A2 lab Hl)|specialize (B2 lab Hl)]; lia.
+      + intros H0 Hp. apply in_app_or in H0 as [H0|H0].
+        * rewrite (A3 H0 Hp). ring.
+        * rewrite (B3 H0 Hp). ring.
+  Qed.
+
+  Lemma state_outcomes_labels p_i st : forall cnt e,
+    (0 < cnt)%Z -> In e (state_outcomes o nu p_i p2 st cnt) ->
+    NoDup (nz (concat (fst e))) /\ (forall l, In l (nz (concat (fst e))) -> (cnt <= l)%Z) /\
+    (In 0%Z (concat (fst e)) -> p_i = 0 -> snd e = 0).
+  Proof.
+    induction st as [|n st IH]; intros cnt e Hc Hin.
+    - cbn [state_outcomes In] in Hin. destruct Hin as [<-|[]]. cbn [fst snd nz filter concat]. split; [constructor|split; [intros l []|intros []]].
+    - cbn [state_outcomes] in Hin. apply in_flat_map in Hin as (e1 & H1 & Hin).
+      apply in_map_iff in Hin as (e2 & <- & H2). cbn [fst snd concat].
+      destruct (mode_outcomes_labels p_i (Z.to_nat n) cnt e1 Hc H1) as (A1 & A2 & A3).
+      destruct (IH (cnt + 2 * Z.of_nat (Z.to_nat n))%Z e2 ltac:(lia) H2) as (B1 & B2 & B3).
+      rewrite nz_app. split; [|split].
+      + apply NoDup_app_intro; [exact A1|exact B1|]. intros x Hx1 Hx2. specialize (A2 x Hx1). specialize (B2 x Hx2). lia.
+      + intros lab Hl. apply in_app_or in Hl as [Hl|Hl]; [specialize (A2 lab Hl)|specialize (B2 lab Hl)]; lia.
+      + intros H0 Hp. apply in_app_or in H0 as [H0|H0].
+        * rewrite (A3 H0 Hp). ring.
+        * rewrite (B3 H0 Hp). ring.
+  Qed.
+
+  Lemma nz_id ls : ~ In 0%Z ls -> nz ls = ls.
+  Proof.
+    induction ls as [|x ls IH]; intros H; simpl; [reflexivity|].
+    destruct (Z.eqb_spec x 0) as [->|Hne]; [exfalso; apply H; left; reflexivity|]. simpl.
+    f_equal. apply IH. intros H'. apply H. right. exact H'.
+  Qed.
+
+  (* zero indistinguishability: every outcome vector either has weight zero or consists of pairwise
+     distinct labels — the photons are classical, distinguishable particles *)
+  Lemma zero_indist_classical st e :
+    In e (state_outcomes o nu 0 p2 st 1%Z) -> snd e = 0 \/ NoDup (concat (fst e)).
+  Proof.
+    intros Hin. destruct (state_outcomes_labels 0 st 1%Z e ltac:(lia) Hin) as (A & _ & C).
+    destruct (in_dec Z.eq_dec 0%Z (concat (fst e))) as [H0|H0].
+    - left. apply C; [exact H0|reflexivity].
+    - right. rewrite <- (nz_id _ H0). exact A.
+  Qed.
+End Classical.
+
+Lemma concat_an_make_perm raw : Permutation (concat (an_make raw)) (concat raw).
+Proof.
+  unfold an_make. induction raw as [|m raw IH]; simpl; [reflexivity|].
+  apply Permutation_app; [apply sort_asc_perm|exact IH].
+Qed.
+
+(* with indistinguishability 0, every per-photon outcome vector of non-zero weight gives an input
+   in which every photon is its own group: the output is a convolution of single-photon distributions *)
+Lemma zero_indist_single_photon_groups {K} {o : ops K} {SR : StarRing o} (nu p2 : K) n_modes st e :
+  In e (state_outcomes o nu (k0 o) p2 st 1%Z) ->
+  snd e = k0 o \/
+  (let a := an_make (fst e) in
+   NoDup (concat a) /\
+   (concat a <> [] ->
+    Forall (fun g => st_n_photons g = 1%Z) (decompose n_modes a) /\
+    length (decompose n_modes a) = an_n_photons a)).
+Proof.
+  intros Hin. destruct (zero_indist_classical nu p2 st e Hin) as [H|H]; [left; exact H|right].
+  assert (Hnd : NoDup (concat (an_make (fst e)))).
+  { apply (Permutation_NoDup (Permutation_sym (concat_an_make_perm (fst e)))). exact H. }
+  split; [exact Hnd|]. intros Hne. destruct (decompose_distinct n_modes _ Hnd Hne) as (_ & A & B). auto.
+Qed.
+
 (* ---- output normalisation ---- *)
 Section OutputNorm.
   Context {K : Type} {o : ops K} {SR : StarRing o}.
